@@ -26,7 +26,7 @@ theorem cs_step {cfg : Cfg} {k : Hash} {Q : List BufElem → Prop} {s s' : State
     (hr : Reach cfg s) (hns : NoSetK k s) (hconf : ConfAgree k s.log) (hs : step cfg s a = some s')
     (h : CS k Q s) : CS k Q s' := by
   rcases h with h | h
-  · exact Or.inl ((step_mono hs).2 h)
+  · exact Or.inl ((step_mono hs).2.1 h)
   · exact Or.inr (safeQ_step hQ hr hns hconf hs h)
 
 theorem pushStable_true : PushStable (fun _ => True) := fun _ _ _ => trivial
@@ -290,7 +290,7 @@ theorem DelPhase.step {cfg : Cfg} {k : Hash} {s s' : State} {a : Action} {new ev
         simp only [Option.some.injEq] at hs'; subst hs'
         have hks := kstep k hr h.nos hconf hs
         rcases h.p2 hw'.delDone with hc | hg | hcp | ⟨f, T, back, h1, h2, h3, _⟩
-        · exact Or.inl ((step_mono hs).2 hc)
+        · exact Or.inl ((step_mono hs).2.1 hc)
         · exact Or.inr (Or.inl (gone_kstep hg hks))
         · rcases clearPending_kstep hcp hks with h1 | h1
           · exact Or.inr (Or.inr (Or.inl h1))
